@@ -508,6 +508,145 @@ def spill_rule(chk, src):
            f"new_mt = self._array2mt(array, {key}); self._mp[{key}] = new_mt", line=si.node.lineno)
 
 
+
+# ------------------------------------------------------------------------------------------ round trip of tree states (abstract run of dump, then load)
+def tree_round_trip_rule(chk, src):
+    """TTNBase/TTNS: the writer's dictionary is fed to the reader; node i of the reloaded tree must carry the tensor and labels of node i, extra attributes restored"""
+    from ..syminterp import SymInterp, Sym, OpenSym, Blob
+    TREE = "renormalizer/tn/tree.py"
+    for cname, extra in (("TTNBase", ["coeff"]), ("TTNS", None)):
+        fd = src.func(TREE, f"{cname}.dump") if src.find_func(TREE, f"{cname}.dump") else None
+        fl = src.func(TREE, f"{cname}.load")
+        base_d, base_l = src.func(TREE, "TTNBase.dump"), src.func(TREE, "TTNBase.load")
+        for n in (3, 12):
+            nodes = [Sym(f"node{i}", tensor=f"tensor-of-node{i}", qn=f"qn-of-node{i}") for i in range(n)]
+            saved = {}
+
+            class Tree(Sym):
+                def __len__(self):
+                    return n
+            me = Tree("ttns", node_list=nodes, coeff="the-coeff")
+            itd = SymInterp(src, None, {"np": OpenSym("np", savez=lambda fname, **kw: saved.update(kw)), "logger": Blob("logger"),
+                                        "super": lambda: Sym("super", dump=lambda fname, other_attrs=None: itd.call_function(base_d, [me, fname, other_attrs]))})
+            itd.builtins["len"] = lambda x: n if x is me else len(x)
+            itd.call_function(fd or base_d, [me, "file"] + ([extra] if cname == "TTNBase" else []))
+
+            class Archive(Sym):
+                """np.load result: mapping with a `files` list (in the archive's own, unspecified order)"""
+                def __getitem__(self, k):
+                    return saved[k]
+
+                @property
+                def files(self):
+                    return sorted(saved, key=lambda k: (len(k) % 3, k))[::-1]
+
+                def keys(self):
+                    return self.files
+            made = []
+            conn = []
+            inst = []
+
+            def ctor(basis, root=None):
+                inst.append(Sym("instance", root=root))
+                return inst[-1]
+            itl = SymInterp(src, None, {"np": OpenSym("np", load=lambda *a, **k: Archive("npload")), "TreeNodeTensor": lambda t, q=None: made.append((t, q)) or ("node", len(made) - 1),
+                                        "copy_connection": lambda a, b: conn.append((a, list(b))),
+                                        "super": lambda: Sym("super", load=lambda basis, fname, other_attrs=None: itl.call_function(base_l, [ctor, basis, fname, other_attrs]))})
+            basis = Sym("basis", node_list=["bn"] * n)
+            out = itl.call_function(fl, [ctor, basis, "file"] + ([extra] if cname == "TTNBase" else []))
+            want = [(f"tensor-of-node{i}", f"qn-of-node{i}") for i in range(n)]
+            ok = made == want and len(conn) == 1 and conn[0][1] == [("node", i) for i in range(n)] and out is inst[-1] and out.root == ("node", 0) and getattr(out, "coeff", None) == "the-coeff" \
+                and saved.get("version") is not None
+            wrong = [f"node {i}: {m}" for i, (m, w) in enumerate(zip(made, want)) if m != w][:2]
+            chk.ob("tree-round-trip", f"{cname}.dump -> {cname}.load [{n} nodes]", ok, fl.where, wrong or {"nodes": len(made), "coeff": getattr(out, "coeff", None), "root": getattr(out, "root", None)},
+                   "node i restored from (tensor_i, qn_i) for i = 0..n-1 in node order; extra attributes restored; root = node 0", line=fl.node.lineno,
+                   detail=f"{cname}: a dumped tree state must reload with every tensor (and its labels) on its own node: " + (wrong[0] if wrong else "attributes / connectivity differ") +
+                          " - e.g. reading the archive's keys in lexicographic order puts tensor_10 before tensor_2 for trees with more than ten nodes")
+
+
+
+def chain_round_trip_rule(chk, src):
+    """MatrixProduct / Mps: the writer's dictionary is fed to the reader of the same class; sites, labels, centre, direction, total charge (and prefactor) come back in place"""
+    from ..syminterp import SymInterp, Sym, OpenSym, Blob
+
+    class Val(Sym):
+        """stored value; conversions are recorded in the name"""
+        def astype(self, t):
+            return Val(self._name)
+
+        def tolist(self):
+            return Val(self._name)
+
+        def item(self, *a):
+            return Val(self._name)
+
+        def __getitem__(self, k):
+            return Val(f"{self._name}[{k!r}]")
+    for cname, rel in (("MatrixProduct", MP), ("Mps", MPS)):
+        fl = src.func(rel, f"{cname}.load")
+        base_d = src.func(MP, "MatrixProduct.dump")
+        fd = src.find_func(rel, f"{cname}.dump") or base_d
+        for n in (2, 11):
+            sites = [Sym(f"site{i}", array=Val(f"array-of-site{i}")) for i in range(n)]
+            qn = [Val(f"qn-of-bond{i}") for i in range(n + 1)]
+            saved = {}
+
+            class Chain(Sym):
+                def __iter__(self):
+                    return iter(sites)
+            me = Chain("mp", site_num=n, qn=qn, qnidx=Val("qnidx"), qntot=Val("qntot"), to_right=Val("to_right"), coeff=Val("coeff"))
+
+            class ObjArr(Sym):
+                def __init__(self):
+                    super().__init__("object-array")
+                    self.items = None
+
+                def __setitem__(self, k, v):
+                    self.items = list(v)
+
+                def __getitem__(self, k):
+                    return self.items[k]
+
+                def __len__(self):
+                    return len(self.items)
+            itd = SymInterp(src, None, {"np": OpenSym("np", savez=lambda fname, **kw: saved.update(kw), empty=lambda n_, t=None: ObjArr()), "logger": Blob("logger"), "object": object,
+                                        "super": lambda: Sym("super", dump=lambda fname, other_attrs=None: itd.call_function(base_d, [me, fname, other_attrs]))})
+            itd.builtins["isinstance"] = lambda x, t: isinstance(x, t) if isinstance(t, type) else False
+            itd.call_function(fd, [me, "file"])
+
+            class Archive(Sym):
+                def __getitem__(self, k):
+                    return saved[k]
+            got = {"sites": []}
+
+            class New(Sym):
+                def append(self, mt):
+                    got["sites"].append(repr(mt))
+
+            def cls_():
+                got["obj"] = New("loaded")
+                return got["obj"]
+            itl = SymInterp(src, None, {"np": OpenSym("np", load=lambda *a, **k: Archive("npload"), iscomplexobj=lambda x: False), "backend": Blob("backend"), "logger": Blob("logger"),
+                                        "int": lambda x: x, "bool": lambda x: x})
+            out = itl.call_function(fl, [cls_, "model", "file"])
+            o = got.get("obj")
+            probs = []
+            if got["sites"] != [f"array-of-site{i}" for i in range(n)]:
+                probs.append(f"sites restored as {got['sites'][:4]}...")
+            oq = getattr(o, "qn", None)
+            oq = oq.items if isinstance(oq, ObjArr) else oq
+            if [repr(x) for x in (oq or [])] != [f"qn-of-bond{i}" for i in range(n + 1)]:
+                probs.append(f"bond labels restored as {[repr(x) for x in (oq or [])][:4]}...")
+            for attr in ("qnidx", "qntot", "to_right") + (("coeff",) if cname == "Mps" else ()):
+                if repr(getattr(o, attr, None)) != attr:
+                    probs.append(f"{attr} restored as {getattr(o, attr, None)!r}")
+            if getattr(o, "model", None) != "model" or out is not o:
+                probs.append("model / returned object")
+            chk.ob("chain-round-trip", f"{cname}.dump -> {cname}.load [{n} sites]", not probs, fl.where, probs[:3] or "sites, labels, centre, direction, charge" + (", prefactor" if cname == "Mps" else ""),
+                   "every quantity restored from what was written for it, sites and bonds in order", line=fl.node.lineno,
+                   detail=f"{cname}: " + (probs[0] if probs else "") + " - a dumped state must reload identically")
+
+
 def run(chk):
     src = chk.src
     chk.explanation = (
@@ -530,6 +669,10 @@ def run(chk):
              "file exists after every file-system effect of dump_dict (exhaustive)", 3)
     chk.rule("lossless-restore", "numerical content read from the archive is restored without narrowing conversions", 10)
     lossless_restore_rule(chk, src)
+    chk.rule("tree-round-trip", "abstract run of the tree writer followed by the tree reader (3 and 12 nodes)", 4)
+    tree_round_trip_rule(chk, src)
+    chk.rule("chain-round-trip", "abstract run of the chain writer followed by the chain reader (2 and 11 sites; MatrixProduct and Mps)", 4)
+    chain_round_trip_rule(chk, src)
     chk.rule("spill-protocol", "disk spill of large site tensors: writer / reader / cleanup agree, content and metadata preserved", 6)
     spill_rule(chk, src)
     chk.rule("dump-completes", "normal completion of dump_dict leaves the primary result file complete", 1)
